@@ -231,6 +231,30 @@ Theorem C17_complex_dependent_reported :
 Proof. exact complex_dependent_reported. Qed.
 Print Assumptions C17_complex_dependent_reported.
 
+(* consistency of the rows with reporting.u_component(y, z) for the complex influence AS THE USER
+   HOLDS IT (model: Budget.u_component_any, compared with the implementation on every session):
+   a real y lists z as two rows (known finding C17-real-two-rows); those rows are
+   |u_component(y, z)[0]|, |u_component(y, z)[1]| with the uids of z.real, z.imag, and the other
+   two entries of u_component(y, z) are 0 -- for independent and dependent z alike *)
+Theorem C17_real_rows_match_u_component_of_complex :
+  forall (s : KTypes.state R) ncx (y xr xi : KTypes.ureal R) lb rv out,
+    (is_elementary RNum xr || is_intermediate RNum xr = true) ->
+    (is_elementary RNum xi || is_intermediate RNum xi = true) ->
+    budget RNum s ncx (@YReal RNum y) (@mkOpts RNum (Some [@IComplex RNum xr xi lb]) 0 None false None rv) = Ok out ->
+    exists a b, u_component_any RNum s (@YReal RNum y) (@IComplex RNum xr xi lb) = Ok [a; b; 0; 0] /\
+                map r_u out = [Rabs a; Rabs b] /\ map r_uid out = [uid_of RNum xr; uid_of RNum xi].
+Proof. exact real_rows_match_u_component_of_complex. Qed.
+Print Assumptions C17_real_rows_match_u_component_of_complex.
+
+Theorem C17_u_component_of_complex_is_by_parts :
+  forall (N : Num) s (y xr xi : KTypes.ureal (T N)),
+    (is_elementary N xr || is_intermediate N xr = true) ->
+    (is_elementary N xi || is_intermediate N xi = true) ->
+    ucomp_rc N s y xr xi =
+    (a <- u_component N s y xr ;; b <- u_component N s y xi ;; Ok (a, b, Kernel.zero N, Kernel.zero N)).
+Proof. exact ucomp_rc_parts. Qed.
+Print Assumptions C17_u_component_of_complex_is_by_parts.
+
 (* what the pairing relies on at declaration time: Kernel.elementary (UncertainReal._elementary)
    seeds the vector of the new number with its own leaf and standard uncertainty, zero included
    (a component of ucomplex(z,(u,0))); the correspondence checks [decl_ok] on every declared
